@@ -6,3 +6,5 @@ FUNCTIONS = ['uxarray.grid.grid.Grid.get_ball_tree',
 STANDINS = ["neighbours"]
 ASSUMPTIONS = []
 EXPLANATION = ""
+LEVEL_TEXT = 'get_ball_tree / get_kd_tree proved to hand back a tree whose element kind, coordinate system and metric are those of THIS call from every cache state; agreement with brute force bounded (sklearn assumed correct)'
+LEVEL_NOTE = 'tree constructors as records of their arguments; tree.coordinates setter modelled; sklearn internals assumed'
